@@ -54,6 +54,7 @@ class Exec(object):
         self.viol = []
         self.events = 0
         self.check_fn = None
+        self.pre_fn = None
         self.max_viol = 4
         self.stop = False
 
@@ -139,6 +140,8 @@ class Exec(object):
                 return None
             if k == 'probe' and 'prec' in st:
                 self._force_prec(st['actor'], st['prec'])
+            if self.pre_fn:
+                self.pre_fn(self, st)
             rec, res = w.exec_leaf(st)
             rec['_res'] = res
             self.check(st, rec, 'after')
